@@ -91,6 +91,9 @@ def make_case(rng, fmt):
                 r["shielded"] = s
             elif r["rtype"] in (11, 12):
                 r["reactants"] = ["GH2O"]
+            elif r["rtype"] == 4 and rng.random() < 0.4:
+                # look-alikes of the self-shielded species H2 / CO / N2: the plain photo law applies to them
+                r["reactants"] = [rng.choice(["H", "C", "O", "N", "CO2", "HCO", "H2O", "N2H+", "H2+", "C2", "NH2"])]
             # the Leeds photo law applies self-shielding whenever the (first) reactant is H2, CO or N2 - also when drawn at random
             if r["rtype"] == 4 and r["reactants"][0] in ("H2", "CO", "N2"):
                 r["shielded"] = r["reactants"][0]
@@ -103,6 +106,9 @@ def make_case(rng, fmt):
                 r["reactants"] = ["CO"]
                 r["products"] = ["C", "O"]
                 r["co_special"] = True
+            elif r["marker"] == "PHOTON" and rng.random() < 0.4:
+                # look-alikes of the self-shielded species: only CO itself is special
+                r["reactants"] = [rng.choice(["C", "O", "CO2", "HCO", "C2", "OH", "CO+"])]
         elif fmt == "naunet":
             r["type"] = rng.choice([100, 100, 101, 102, 110, 111, 120])
             r["pseudo"] = {101: "CR", 102: "PHOTON", 120: "CRPHOT"}.get(r["type"])
